@@ -4,7 +4,7 @@ from lib import core, propgen
 
 ID = 'C18'
 UNITS = ['multipitch_metrics', 'multipitch_resample']
-TRANSLATORS = ['vecfuncs', 'wrapfuncs']
+TRANSLATORS = ['vecfuncs', 'wrapfuncs', 'framefuncs']
 NOT_COVERED = ('frequencies_to_midi (log2) is a parameter of the model (the unit feeds it the implementation\'s own Hz->MIDI table); unsorted time '
                'bases passed directly to resample_multipitch; the matcher model is total (bipartite_match_total)')
 ASSUMPTIONS = ['scipy interp1d(kind="nearest") = left searchsorted on midpoints, as observed and modelled; np.allclose constants as exact doubles']
